@@ -449,7 +449,10 @@ func (c *compiler) evalAccessIndex(left, index interface{}, node *ast.IndexExpre
 
 func (c *compiler) evalHashLiteral(node *ast.HashLiteral) (interface{}, error) {
 	m := map[string]interface{}{}
-	for ke, ve := range node.Pairs {
+	// in source order: a Go map has no order, so the values' side effects and
+	// the winner among duplicate keys would change from run to run
+	for _, ke := range node.Order {
+		ve := node.Pairs[ke]
 		v, err := c.evalExpression(ve)
 		if err != nil {
 			return nil, err
